@@ -1,17 +1,17 @@
-\* thorough: <=3 groups over 3 names, 2 classes, <=1 record/group, counts 1..2, endpoints {00,10,01}
+\* thorough: <=3 groups over 3 names, 2 classes, <=1 record/group, count 1, no endpoints
 SPECIFICATION Spec
 CONSTANTS
   UnitSeq <- U2
   GroupNames = {"g1","g2","g3"}
   MaxGroups = 3
   MaxRecs = 1
-  MaxCount = 2
+  MaxCount = 1
   MCountMin = 1
-  EpVals <- EpGrp
+  EpVals <- EpNone
   ChainCanonical = FALSE
   TenantMode = "forall"
-  ExportMode = "none"
-  SampleMod = 1
+  ExportMode = "focus"
+  SampleMod = 997
   SampleRes = 0
   NearMod = 1
   SliceMod = 1
